@@ -300,4 +300,20 @@ def openXor (nonceSize tagSize : Nat) (expTag : Bytes → Bytes → Bytes → By
       openAsmXor tagSize expTag dec h1 none nonce ciphertext additionalData
   if tagMatch ≠ 1 then .ok (h2, none) else .ok (h2, some ret)
 
+/-- the pre-repair `Open` as a heap call (it also writes the tag bytes of `ciphertext`, which is
+    NOT inside its window: it has no `Contract`) -/
+def openXorCall (nonceSize tagSize : Nat) (expTag : Bytes → Bytes → Bytes → Bytes)
+    (dec : Bytes → Bytes → Bytes) (dst nonce ct aad : Slice) : HeapCall :=
+  { run := fun h => openXor nonceSize tagSize expTag dec h dst nonce ct aad
+    win := dst
+    ins := [dst, nonce, ct, aad] }
+
+/-! ## 4. package-level state -/
+
+/-- methods (of math/big's `Int`, of `elliptic.Curve`) that do not modify their receiver: the only
+    methods the library may call on a package-level variable outside initialisation -/
+def readOnlyMethods : List String :=
+  ["Bytes", "Cmp", "Sign", "BitLen", "Bit", "Params", "String", "Text", "Uint64", "Int64",
+   "IsInt64", "IsUint64", "FillBytes", "IsOnCurve", "ProbablyPrime"]
+
 end SMGo.Model.Interleave
